@@ -29,22 +29,22 @@ CLAIMED = {
             "trusted: bufio.Scanner/bufio.Writer contracts, encoder stubs perform one Write per Encode (the real yaml/toml encoders may split writes; covered only by native replays); short writes with nil error not modelled; massive-mode reader failures (k = 0 included, FIFO/LIFO/random schedules) and writer failures are part of this check; the failure value is solver-chosen among a fresh error, context.Canceled and context.DeadlineExceeded",
             "DESIGN.md 5 C14"),
     "C12": ("bounded symbolic model checking at byte level: every document of 1-2 rows of a few arbitrary bytes is run through the real parser and every sequential entry point; an interpreted panic or an exceeded step budget on any feasible path is a violation, and z3 decides that blank-only input gives empty output and nil; panic-freedom is also built into every harness of every other property",
-            "bound on row count/length with every byte arbitrary is small (byte-level path explosion); additionally long structured rows (prefix + 30/100 units of 1-, 2-, 3-byte characters or invalid bytes + one arbitrary byte) and the scanner's line limit on the real bufio.Scanner (65535 bytes fit, 65536 do not) on simple and massive routes; file system is the harness model",
+            "bound on row count/length with every byte arbitrary is small (byte-level path explosion); additionally long structured rows (prefix + 30/100 units of 1-, 2-, 3-byte characters or invalid bytes + one arbitrary byte) and the scanner's line limit on the real bufio.Scanner (65535 bytes fit, 65536 do not) on simple and massive routes; file system is the harness model, on the mkdir/verify routes also with the target directory being a regular file (every Stat below it fails with an error other than 'does not exist')",
             "DESIGN.md 5 C12"),
     "C15": ("bounded symbolic model checking of the notation family in two layers: the L-parse lemmas run the real Parser.Parse from every state an accepted prefix can leave, on rows whose name bytes are symbolic, and z3 decides that every spelling of a row yields the same (depth, text) resp. the right error class; an end-to-end harness (real parser + real tree code, no stub) compares the canonical spelling with every member of the notation family on small forests",
             "CRLF / final newline: the real bufio.Scanner, ScanLines and strings.Reader are executed from std's SSA (L-scan lemma on documents of <= 7 arbitrary bytes; end-to-end jobs with LF/CRLF per row, missing last terminator, trailing empty lines, also through massive mode); heading names assumed free of surrounding blanks; name length <= 3 bytes in the lemmas; outputs other than text rely on C01-C05 (same generator)",
             "DESIGN.md 5 C15, 4.2"),
     "C06": ("bounded symbolic model checking of the mkdir code against a file-system model executed symbolically next to it: for every forest up to the bound, opaque names and extensions, every pre-state of the family and the modelled OS refusals, z3 decides that the entries created are exactly the node paths with kinds by the file rule, that nothing else changes, that a pre-existing root gives ErrExistPath with the state unchanged and that a refused operation is never reported as success",
-            "the file-system model (harness/gtree/vfs_sym.go) is the trusted reading of os.Stat/MkdirAll/Create; path contracts; the native replays run the same harness against the real OS in a jail; forests with distinct roots, and (C06.dup) forests whose root names may coincide",
+            "the file-system model (harness/gtree/vfs_sym.go) is the trusted reading of os.Stat/MkdirAll/Create; path contracts; the native replays run the same harness against the real OS in a jail; forests with distinct roots, and (C06.dup) forests whose root names may coincide; a pre-existing root is a directory, a file, a symbolic link to a directory or a symbolic link to nothing; refusals: over-long name, target is a regular file, target is a symbolic link to nothing",
             "DESIGN.md 5 C06"),
     "C07": ("bounded symbolic model checking at byte level: every name byte of a 2-3 node tree is a solver variable, the real path.Join/Clean, filepath.Join, fs.ValidPath and validation code is executed on them, and z3 decides that every path handed to a mutating os call is lexically inside the target, that a name which is not a single valid path element is rejected, and that nothing is created in that case, on all five mkdir/dry-run routes",
-            "lexical confinement (symlinks outside the claim); ASCII names of <= 4 bytes, <= 3 nodes; os calls are recorders",
+            "byte-level jobs: lexical confinement, ASCII names of <= 4 bytes, <= 3 nodes, os calls are recorders; confinement against what is on disk is a tree-level job on the file-system model (C07.links: at one root's path a symbolic link to a directory outside the target or to nothing, valid names, all five Mkdir entry points: nothing is made or changed through the link); links deeper in the tree or at the target itself are outside",
             "DESIGN.md 5 C07"),
     "C08": ("bounded symbolic model checking of the verifier against the file-system model: for every forest up to the bound and every directory state of the family (present subsets, files, extras, strict or not) z3 decides verdict, soundness and exactness of both reported lists for the first differing root, the public error text and read-only-ness; and that a tree just made by the real Mkdir code verifies strictly",
             "file-system model incl. the fs.WalkDir / filepath.WalkDir contracts is trusted (exercised natively); the first root may be a symbolic link to a directory (Stat-following operations see a directory, an Lstat-based walk does not descend); bound N=3 for the state-space job; a present node may be a regular file although the tree gives it children; byte-level jobs (names of 1..2 bytes over a 4-letter alphabet, real filepath code) list every directory in the real lexical order",
             "DESIGN.md 5 C08"),
     "C09": ("bounded symbolic model checking of the three dry-run routes against the real mkdir code in one harness: no mutation, report text equals tree text plus per-root counts, and the counts equal what the real Mkdir then creates in the same model; names-based rejection equivalence is decided at byte level under C07",
-            "file-system model, color/bufio stubs; target directory present or missing, default or four opaque branch strings, every call with its own copy of the extension list (which may hold duplicates); massive mode under C10",
+            "file-system model, color/bufio stubs; target directory present or missing, default or four opaque branch strings, every call with its own copy of the extension list (which may hold duplicates); an encode option in front of or behind WithDryRun in the same call; massive mode under C10",
             "DESIGN.md 5 C09"),
     "C10": ("bounded symbolic model checking of the real pipeline code next to the real simple-mode code on the same symbolic documents: goroutines, channels, select, WaitGroup, Mutex, context and errgroup are interpreted under a deterministic cooperative scheduler (several policies), and z3 decides same accept/reject decision and equality of results up to the order of roots (whole per-root blocks) for text, JSON, dry-run, walk, mkdir and verify; a byte-level job decides the unit-learning difference, another the pre-existing-root case",
             "the input and configuration quantifiers are decided; the schedule quantifier only over the explored policies (each a legal Go schedule) - equality under every schedule is NOT claimed; data races of the pipeline are decided under C11 (happens-before detector on this harness family); two known findings (mixed indentation units per block, partial mkdir when a root exists) are listed in known_findings.txt",
@@ -56,7 +56,7 @@ CLAIMED = {
             "library entry points, urfave/cli's parser, os.Open/Exit and the standard streams are stubs (contracts listed in the evidence); what the library does with the options is C01-C15; models of these jobs (witnesses and counterexamples) are replayed by a concrete CLI-vs-library differential run (engine/clireplay.go + replay/cliref: stdout, exit status, file-system snapshot, also with stdout=/dev/full); the App.Run stub's contract (usage failure => error or non-zero exit) is validated on the real binary for every class of usage failure (stray argument, unknown flag, unknown sub-command, unknown help topic, missing flag value, invalid duration) on every run -- that part is a concrete contract validation, not a solver verdict",
             "DESIGN.md 5 C16"),
     "C17": ("bounded symbolic model checking of a two-variant relational property: the tinywasm file set is regenerated from /repo as a second package of the same SSA program, both Output implementations run on the same symbolic documents and options, and z3 decides equal accept/reject decisions and equal output (text with opaque branch strings, JSON record, dry-run report)",
-            "the tinywasm constraint is emulated by file selection (same files the Go tool would select); Parse contract; encoder stubs incl. the documented effect of encoder settings; byte-level names through the real path code; rows at the scanner's line limit through the real bufio.Scanner of both variants; bound = rows",
+            "the tinywasm constraint is emulated by file selection (same files the Go tool would select); Parse contract; encoder stubs incl. the documented effect of encoder settings; byte-level names through the real path code; rows at the scanner's line limit and LF/CRLF spellings of small forests through the real line splitting of both variants; a writer that refuses its first write in every comparison; bound = rows",
             "DESIGN.md 5 C17"),
 }
 
